@@ -79,7 +79,7 @@ package keeper
 //@   ensures returnedError == nil ==> !withdrawn.Amount.IsNil() && withdrawn.Denom == $vestingDenom
 //@     && withdrawn.Amount == sumWd(old($pIL[owner]), old($pS[owner]), old($pW[owner]), old($pLockEnd[owner]), $blockTime, old($pLen[owner]))
 //@   // the coins paid leave the module account and reach the owner
-//@   ensures returnedError == nil ==> $bal[modaddr("cfevesting")][$vestingDenom] == old($bal[modaddr("cfevesting")][$vestingDenom]) - withdrawn.Amount
+//@   ensures returnedError == nil && fromBech32(owner) != modaddr("cfevesting") ==> $bal[modaddr("cfevesting")][$vestingDenom] == old($bal[modaddr("cfevesting")][$vestingDenom]) - withdrawn.Amount
 //@   ensures returnedError == nil && fromBech32(owner) != modaddr("cfevesting") ==> $bal[fromBech32(owner)][$vestingDenom] == old($bal[fromBech32(owner)][$vestingDenom]) + withdrawn.Amount
 //@   ensures forall a: str :: {$bal[a]} a != modaddr("cfevesting") && a != fromBech32(owner) ==> $bal[a] == old($bal[a])
 //@   prop C06 C05
